@@ -325,6 +325,7 @@ def skiplist_corners(rng):
                 f"sl removeRangeByRank 0 0", f"sl removeRangeByRank -5 1", f"sl removeRange {ninf} {nan} -3 0", "sl dump"]
     return ops
 
+SLZ_QUERIES = True      # the ordered queries (ZRange, ZCount, ZRangeByScore ...) of the slz ops: same condition
 SLZ_ENABLED = True      # the model side of the slz ops (Driver) must exist before these streams run
 
 
@@ -463,9 +464,35 @@ def skiplist_zset_stream(rng, n_ops, max_members):
             drop(a, b + 1)
         line("ZRemRangeByRank", start, stop)
 
+    def do_query():
+        n = len(cur)
+        r = rng.random()
+        if r < 0.40:
+            # rank windows around both ends; in this code base ranks are 1-based with 0 an alias of 1,
+            # and some windows panic (known finding A-41): the model follows that
+            k = rng.choice([1, 2, 3])
+            start, stop = rng.choice([
+                (0, -1), (0, k), (1, k), (0, 0), (1, 1), (n - k, n), (n, n), (n, n + 3), (n + 1, n + 2), (n + 2, n + 5),
+                (-k, -1), (-1, -1), (-n, -1), (-n - 2, -1), (-3, 2), (2, 1), (3, -5), (0, -n - 1), (k, -k),
+                (rng.randint(-2, n + 2), rng.randint(-n - 2, n + 2)), (rng.randint(0, n + 1), rng.randint(-1, n + 1)),
+            ])
+            line(rng.choice(["ZRange", "ZRevRange"]), start, stop)
+        elif r < 0.60:
+            a, b, mode = score_bounds() if rng.random() < 0.6 else (sc(), sc(), rng.randrange(4))
+            line("ZCount", fbits(a), fbits(b), rng.randrange(4) if rng.random() < 0.5 else mode)
+        else:
+            a, b, mode = score_bounds() if rng.random() < 0.6 else (sc(), sc(), rng.randrange(4))
+            if rng.random() < 0.5:
+                mode = rng.randrange(4)
+            line(rng.choice(["ZRangeByScore", "ZRevRangeByScore"]), fbits(a), fbits(b),
+                 rng.choice([0, 0, 0, 1, 2, 5]), rng.choice([-1, -1, 0, 1, 2, 10]), mode)
+
     growing = True
     target = max_members
     while len(ops) < n_ops:
+        if SLZ_QUERIES and rng.random() < 0.20:
+            do_query()
+            continue
         n = len(cur)
         if growing and n >= max_members * 9 // 10:
             growing = False
